@@ -104,6 +104,9 @@ def _ad_inputs():
 PROBES.append((re.compile(r"^ad::(AuthenticatorData::from_slice|AttestedCredentialData::from_reader)::"), "authdata-decode", _ad_inputs()))
 
 
+PROBES.append((re.compile(r"^clt::"), "client-ceremonies", ["sweep"]))
+
+
 CEREMONY = {"C09": ["c09"], "C04": ["c04"], "C05": ["c05"], "C07": ["c07"], "C08": ["c08"], "C11": ["c11"], "C02": ["c07", "c11"], "C03": ["c05"]}
 
 
